@@ -7,6 +7,7 @@ PID = 'C20'
 TARGETS = ['Properties/C20.vo', 'Bridge/EqBridge.vo', 'Bridge/PlumbingBridge.vo', 'Bridge/InitBridge.vo', 'Bridge/RefBridge.vo']
 KERNELS = ['G10_eq', 'G17_builder', 'G15_init', 'G15b_init_structural', 'G16_ref']     # G16: what a parse stores for a referenced / selected packet
 PROP_FILE = 'Properties/C20.v'
+WHOLE_PACKET = True      # Tie A over all of the pack / unpack machinery (check.py: WHOLE_PACKET_KERNELS)
 
 
 def change_one(table, v, rng):
